@@ -155,6 +155,21 @@ pub fn equal<const N: usize, const SR: usize, const SQ: usize>() {
     std::mem::forget(m);
 }
 
+/// The two pre-filters of the matcher on longer words than the full matcher can be run on:
+/// for a K-letter prefix (unfinished, or finished when K == NR) of an NR-letter title word the
+/// real `length_check` and `jaccard_check` both pass. Stems do not enter these two functions.
+pub fn gates_prefix<const NR: usize, const K: usize, const QFIN: bool>() {
+    let r = any_txt_stems::<NR, 1>([(0, NR)], [NR], true);
+    let mut q = any_txt_stems::<K, 1>([(0, K)], [K], QFIN);
+    let mut i = 0;
+    while i < K { q.chars[i] = r.chars[i]; q.classes[i] = r.classes[i]; i += 1; }
+    let (rt, qt) = (r.text(), q.text());
+    let (rv, qv) = (rt.view(0), qt.view(0));
+    assert!(vh::length_check(&rv, &qv), "C03/C13: length pre-filter rejects a prefix / an exact copy of the title word");
+    assert!(vh::jaccard_check(&rv, &qv), "C03/C13: Jaccard pre-filter rejects a prefix / an exact copy of the title word");
+    crate::witness!(true, "end reachable");
+}
+
 fn same_pair(a: &Option<(WordMatch, WordMatch)>, b: &Option<(WordMatch, WordMatch)>) -> bool {
     match (a, b) {
         (None, None) => true,
@@ -219,6 +234,15 @@ cases! {
     wm_typo_5_sub_s4 = typo::<5, 5, 0, 4, 4>(); wm_typo_5_del_s4 = typo::<5, 4, 2, 4, 4>(); wm_typo_5_ins_s4 = typo::<5, 6, 1, 4, 5>(); wm_typo_5_tr_s3 = typo::<5, 5, 3, 3, 3>();
     wm_typo_6_sub = typo::<6, 6, 0, 6, 6>(); wm_typo_6_ins = typo::<6, 7, 1, 6, 7>(); wm_typo_6_del = typo::<6, 5, 2, 6, 5>(); wm_typo_6_tr = typo::<6, 6, 3, 6, 6>();
     wm_local_1 = local::<1, 1>(); wm_local_2 = local::<2, 2>(); wm_local_3 = local::<3, 3>();
+    // gates_prefix<NR, K, QFIN>
+    wm_gate_2_1_u = gates_prefix::<2, 1, false>(); wm_gate_3_2_u = gates_prefix::<3, 2, false>(); wm_gate_4_1_u = gates_prefix::<4, 1, false>();
+    wm_gate_4_2_u = gates_prefix::<4, 2, false>(); wm_gate_4_3_u = gates_prefix::<4, 3, false>(); wm_gate_4_4_f = gates_prefix::<4, 4, true>();
+    wm_gate_5_2_u = gates_prefix::<5, 2, false>(); wm_gate_5_3_u = gates_prefix::<5, 3, false>(); wm_gate_5_4_u = gates_prefix::<5, 4, false>();
+    wm_gate_5_5_f = gates_prefix::<5, 5, true>(); wm_gate_6_2_u = gates_prefix::<6, 2, false>(); wm_gate_6_3_u = gates_prefix::<6, 3, false>();
+    wm_gate_6_5_u = gates_prefix::<6, 5, false>(); wm_gate_6_6_f = gates_prefix::<6, 6, true>(); wm_gate_3_3_f = gates_prefix::<3, 3, true>();
+    wm_gate_5_1_u = gates_prefix::<5, 1, false>(); wm_gate_4_4_u = gates_prefix::<4, 4, false>(); wm_gate_5_5_u = gates_prefix::<5, 5, false>();
+    wm_pre_3_3_1_1_u = prefix::<3, 3, 1, 1, false>(); wm_pre_3_2_1_1_u = prefix::<3, 2, 1, 1, false>(); wm_pre_3_3_1_2_u = prefix::<3, 3, 1, 2, false>();
+    wm_pre_2_2_1_1_u = prefix::<2, 2, 1, 1, false>();
     // equal<N, SR, SQ>
     wm_eq_1 = equal::<1, 1, 1>(); wm_eq_2 = equal::<2, 2, 2>(); wm_eq_2_s1 = equal::<2, 1, 1>(); wm_eq_3 = equal::<3, 3, 3>(); wm_eq_3_s2 = equal::<3, 2, 2>();
     wm_eq_4 = equal::<4, 4, 4>(); wm_eq_4_s2 = equal::<4, 2, 3>(); wm_eq_5 = equal::<5, 5, 5>(); wm_eq_5_s3 = equal::<5, 3, 3>();
